@@ -604,3 +604,440 @@ func c17r9(p *model.Prog, r *report.Result) {
 		r.Bad("C17.R9", "floor", "", fmt.Sprintf("only %d Add/DelRtmpPushSession calls found in pkg/logic", n))
 	}
 }
+
+// c01r10: the merge writer hands blocks on in the order it received them.
+func c01r10(p *model.Prog, r *report.Result) {
+	r.Rule("C01.R10", "every call of MergeWriter.onWritev in the methods of base.MergeWriter passes the waiting list w.bs itself, or runs only when nothing is waiting (behind len(w.bs) == 0 / w.currSize == 0): a block never overtakes blocks accepted before it")
+	onW := p.Field("pkg/base", "MergeWriter", "onWritev")
+	bsF := p.Field("pkg/base", "MergeWriter", "bs")
+	curF := p.Field("pkg/base", "MergeWriter", "currSize")
+	n := 0
+	for _, fn := range lalFuncsIn(p, "pkg/base") {
+		if recvName(topFn(fn)) != "MergeWriter" {
+			continue
+		}
+		for _, ci := range model.AllCalls(fn) {
+			if !model.IsLoadOfField(ci.Common().Value, onW) || len(ci.Common().Args) != 1 {
+				continue
+			}
+			n++
+			arg := ci.Common().Args[0]
+			if model.IsLoadOfField(arg, bsF) {
+				r.Ok("C01.R10", fkey(fn, "emit", "in-order"), p.InstrPos(ci), "emits the whole waiting list")
+				continue
+			}
+			empty := model.GuardedBy(ci, func(c ssa.Value, pol bool) bool {
+				x, k, op, right, ok := constCmp(c)
+				if !ok || k != 0 {
+					return false
+				}
+				isEmptyTest := false
+				if l, isLen := lenOf(model.Unwrap(x)); isLen && model.IsLoadOfField(l, bsF) {
+					isEmptyTest = true
+				}
+				if model.IsLoadOfField(model.Unwrap(x), curF) {
+					isEmptyTest = true
+				}
+				// the edge on which the quantity is 0
+				return isEmptyTest && cmpAt(op, 0, k, right) == pol && cmpAt(op, 1, k, right) != pol
+			})
+			r.Check(empty, "C01.R10", fkey(fn, "emit", "in-order"), p.InstrPos(ci), "emits another block only while nothing is waiting", "a block is handed to the connection while earlier blocks are still waiting in the merge buffer: it overtakes them (a key frame reaches the subscriber before the audio accepted ahead of it)")
+		}
+	}
+	if n < 1 {
+		r.Bad("C01.R10", "floor", "", "no call of MergeWriter.onWritev found")
+	}
+}
+
+// c17r10: only the end of a pull attempt gives the "attempt in flight" flag back.
+func c17r10(p *model.Prog, r *report.Result) {
+	r.Rule("C17.R10", "pullProxy.isSessionPulling is cleared only on the way from Group.DelRtmpPullSession / DelRtspPullSession (the pull goroutine reporting the end of its attempt): a stop or kick while the attempt is still connecting does not free the slot, so no second attempt is started beside the one in flight")
+	f := p.Field("pkg/logic", "pullProxy", "isSessionPulling")
+	ends := map[*ssa.Function]bool{
+		p.Method("pkg/logic", "Group", "DelRtmpPullSession"): true,
+		p.Method("pkg/logic", "Group", "DelRtspPullSession"): true,
+	}
+	memo := map[*ssa.Function]int{} // 1 = only from the end of an attempt, 2 = not
+	var endOnly func(fn *ssa.Function, d int) bool
+	endOnly = func(fn *ssa.Function, d int) bool {
+		fn = topFn(fn)
+		if ends[fn] {
+			return true
+		}
+		if v, ok := memo[fn]; ok {
+			return v == 1
+		}
+		memo[fn] = 2
+		if d > 4 {
+			return false
+		}
+		n := 0
+		for _, ed := range p.Callers(fn) {
+			if !model.IsLal(ed.Caller.Func) {
+				continue
+			}
+			n++
+			if !endOnly(ed.Caller.Func, d+1) {
+				return false
+			}
+		}
+		if n == 0 {
+			return false
+		}
+		memo[fn] = 1
+		return true
+	}
+	n := 0
+	for _, fn := range lalFuncsIn(p, "pkg/logic") {
+		for _, st := range model.FieldStores(fn, f) {
+			if v, isK := model.ConstBool(st.Val); !isK || v {
+				continue
+			}
+			n++
+			r.Check(endOnly(fn, 0), "C17.R10", fkey(fn, "pull-flag", "cleared-at-attempt-end"), p.InstrPos(st), "cleared on the way from Del*PullSession only", "the in-flight flag of the relay pull is cleared outside the end of the attempt (a stop / kick / other path): while the first connection attempt is still running the next trigger starts a second one - two concurrent pulls of one stream")
+		}
+	}
+	if n < 1 {
+		r.Bad("C17.R10", "floor", "", "no store clearing isSessionPulling found")
+	}
+}
+
+// c03r10: the liveness probe of a session is consumed by the periodic sweep only.
+func c03r10(p *model.Prog, r *report.Result) {
+	r.Rule("C03.R10", "in pkg/logic IsAlive() of a session (which compares the byte counters with the snapshot taken at its previous call and then overwrites that snapshot) is called only on the way from Group.Tick: a call from another path (a refusal log, an API answer) restarts the accepted input's check interval, and the next sweep disconnects a publisher that was sending all the time")
+	tick := p.Method("pkg/logic", "Group", "Tick")
+	memo := map[*ssa.Function]int{}
+	var tickOnly func(fn *ssa.Function, d int) bool
+	tickOnly = func(fn *ssa.Function, d int) bool {
+		fn = topFn(fn)
+		if fn == tick {
+			return true
+		}
+		if v, ok := memo[fn]; ok {
+			return v == 1
+		}
+		memo[fn] = 2
+		if d > 4 {
+			return false
+		}
+		n := 0
+		for _, ed := range p.Callers(fn) {
+			if !model.IsLal(ed.Caller.Func) {
+				continue
+			}
+			n++
+			if !tickOnly(ed.Caller.Func, d+1) {
+				return false
+			}
+		}
+		if n == 0 {
+			return false
+		}
+		memo[fn] = 1
+		return true
+	}
+	n := 0
+	for _, fn := range lalFuncsIn(p, "pkg/logic") {
+		for _, ci := range model.AllCalls(fn) {
+			name := ""
+			if o := model.CalleeObj(ci.Common()); o != nil {
+				name = o.Name()
+			} else if ci.Common().IsInvoke() {
+				name = ci.Common().Method.Name()
+			}
+			if name != "IsAlive" {
+				continue
+			}
+			// only the stateful probes: a method with two bool results
+			sig := ci.Common().Signature()
+			if sig.Results().Len() != 2 {
+				continue
+			}
+			n++
+			r.Check(tickOnly(fn, 0), "C03.R10", fkey(fn, "liveness", "probe-from-tick-only"), p.InstrPos(ci), "probed by the periodic sweep", "IsAlive() is called outside the periodic sweep: the call consumes the activity of the current interval, so an accepted input that is sending is seen as silent by the next sweep and disconnected (e.g. after another publisher for the same name was refused)")
+		}
+	}
+	if n < 3 {
+		r.Bad("C03.R10", "floor", "", fmt.Sprintf("only %d IsAlive() probes found in pkg/logic", n))
+	}
+}
+
+// c14r13: an address leaves the black list only on the strength of the expiry the list holds for it.
+func c14r13(p *model.Prog, r *report.Result) {
+	r.Rule("C14.R13", "every delete from IpBlacklist.ips removes a key whose expiry, as stored in that map (the range value of ips or ips[key]), was compared in a dominating test - directly, or when the key was put into the set the delete loop ranges over: an entry renewed by a second Add is not removed on the strength of an older copy of its expiry")
+	ipsF := p.Field("pkg/logic", "IpBlacklist", "ips")
+	n := 0
+	isIps := func(v ssa.Value) bool { return model.IsLoadOfField(v, ipsF) }
+	// usesMapValue: cond compares something with the value ips holds for a key
+	usesMapValue := func(c ssa.Value) bool {
+		bo, ok := c.(*ssa.BinOp)
+		if !ok {
+			return false
+		}
+		for _, side := range []ssa.Value{bo.X, bo.Y} {
+			side = model.Unwrap(side)
+			if ex, isEx := side.(*ssa.Extract); isEx {
+				if nx := iterOrigin(ex); nx != nil && rangedField(nx) == ipsF && ex.Index == 2 {
+					return true
+				}
+				if lk, isLk := ex.Tuple.(*ssa.Lookup); isLk && isIps(lk.X) && ex.Index == 0 {
+					return true
+				}
+			}
+			if lk, isLk := side.(*ssa.Lookup); isLk && isIps(lk.X) {
+				return true
+			}
+		}
+		return false
+	}
+	guardedByMapValue := func(in ssa.Instruction) bool {
+		return model.GuardedBy(in, func(c ssa.Value, pol bool) bool {
+			c, _ = model.StripNot(c, pol)
+			return usesMapValue(c)
+		})
+	}
+	for _, fn := range lalFuncsIn(p, "pkg/logic") {
+		if recvName(topFn(fn)) != "IpBlacklist" {
+			continue
+		}
+		for _, ci := range model.AllCalls(fn) {
+			b, isB := ci.Common().Value.(*ssa.Builtin)
+			if !isB || b.Name() != "delete" || !isIps(ci.Common().Args[0]) {
+				continue
+			}
+			n++
+			ok := guardedByMapValue(ci)
+			if !ok {
+				// the key comes from a set that was filled under such a test
+				if ex, isEx := model.Unwrap(ci.Common().Args[1]).(*ssa.Extract); isEx {
+					if nx := iterOrigin(ex); nx != nil {
+						if rg, isR := nx.Iter.(*ssa.Range); isR {
+							if mk, isMk := rg.X.(*ssa.MakeMap); isMk && mk.Referrers() != nil {
+								all, some := true, false
+								for _, ref := range *mk.Referrers() {
+									if mu, isMU := ref.(*ssa.MapUpdate); isMU {
+										some = true
+										if !guardedByMapValue(mu) {
+											all = false
+										}
+									}
+								}
+								ok = all && some
+							}
+						}
+					}
+				}
+			}
+			r.Check(ok, "C14.R13", fkey(fn, "blacklist", "delete-on-own-expiry"), p.InstrPos(ci), "removed only after the stored expiry was tested", "an address is deleted from the black list without a test of the expiry the list currently holds for it (the decision comes from another record of the expiry): after a second, longer ban of the same address the first ban's expiry removes it - the address is served again before the announced time")
+		}
+	}
+	if n < 1 {
+		r.Bad("C14.R13", "floor", "", "no delete from IpBlacklist.ips found")
+	}
+}
+
+// c04r13: a refused publish / play ends the RTMP session.
+func c04r13(p *model.Prog, r *report.Result, rule string) {
+	r.Rule(rule, "in rtmp.ServerSession.doPublish / doPlay (with same-package helpers inlined), on the way where the observer's OnNewRtmpPubSession / OnNewRtmpSubSession returned a non-nil error, every return hands that error on (the value itself, or a helper that returns the error it was given): the read loop ends and the connection is closed - a refused publisher whose session kept running would reach the media dispatch with no observer attached")
+	n := 0
+	for _, name := range []string{"doPublish", "doPlay"} {
+		fn := p.Method("pkg/rtmp", "ServerSession", name)
+		model.EachInstrDeep(fn, 2, func(d model.DeepInstr) {
+			call, ok := d.In.(*ssa.Call)
+			if !ok || !call.Call.IsInvoke() {
+				return
+			}
+			m := call.Call.Method.Name()
+			if m != "OnNewRtmpPubSession" && m != "OnNewRtmpSubSession" {
+				return
+			}
+			n++
+			errVals := errValuesOf(call)
+			var propagates func(v ssa.Value, depth int) bool
+			propagates = func(v ssa.Value, depth int) bool {
+				if depth > 4 {
+					return false
+				}
+				for _, ev := range errVals {
+					if v == ev {
+						return true
+					}
+				}
+				switch x := v.(type) {
+				case *ssa.Phi:
+					for _, e := range x.Edges {
+						if model.IsNilConst(e) {
+							continue // the other way into the merge; only the refused way is asked
+						}
+						if !propagates(e, depth+1) {
+							return false
+						}
+					}
+					return true
+				case *ssa.Call:
+					ce := x.Call.StaticCallee()
+					if ce == nil || ce.Blocks == nil || len(ce.Params) != len(x.Call.Args) {
+						return false
+					}
+					k := -1
+					for i, a := range x.Call.Args {
+						if propagates(a, depth+1) {
+							k = i
+						}
+					}
+					if k < 0 {
+						return false
+					}
+					for _, ret := range model.ReturnsOf(ce) {
+						rvs := model.ReturnValues(ret)
+						if len(rvs) != 1 || rvs[0] != ssa.Value(ce.Params[k]) {
+							return false
+						}
+					}
+					return true
+				}
+				return false
+			}
+			good := true
+			pos := p.InstrPos(call)
+			for _, e := range errNonNilEdges(call) {
+				bad := model.PathQuery{FromBlock: e, Target: func(in ssa.Instruction) bool {
+					ret, isRet := in.(*ssa.Return)
+					if !isRet {
+						return false
+					}
+					rvs := model.ReturnValues(ret)
+					return len(rvs) != 1 || !propagates(rvs[0], 0)
+				}}.Find(d.Fn)
+				if bad != nil {
+					good = false
+					pos = p.InstrPos(bad)
+				}
+			}
+			if len(errNonNilEdges(call)) == 0 {
+				good = false
+			}
+			r.Check(good, rule, fkey(fn, "refused", m), pos, "the observer's refusal is returned", "after the observer refused the "+name[2:]+" the handler can return something else than that error (nil when a reply was written successfully): the session's read loop goes on with the base type already set but no media observer attached, and the next audio/video/data message of that peer dereferences nil - one refused publish (second publisher on a name, failed auth) followed by any media message terminates the server")
+		})
+	}
+	if n < 2 {
+		r.Bad(rule, "floor", "", fmt.Sprintf("only %d observer admission calls found in doPublish/doPlay", n))
+	}
+}
+
+// c03r11: a refused input leaves the accepted input's pipeline alone.
+func c03r11(p *model.Prog, r *report.Result) {
+	r.Rule("C03.R11", "in every Group method that admits an input (it tests hasInSession()), a new object is stored into a Group field of a pkg/remux pointer type (the per-input remuxers and filters) only on ways that crossed the 'no input yet' edge of that test - with same-package helpers and closures handed to them followed: a publisher or relay pull that is refused does not replace the remuxers the accepted input is using")
+	groupT := p.Named("pkg/logic", "Group")
+	st := groupT.Underlying().(*types.Struct)
+	remuxFields := map[*types.Var]bool{}
+	for i := 0; i < st.NumFields(); i++ {
+		f := st.Field(i)
+		if pt, ok := f.Type().(*types.Pointer); ok {
+			if nt, isN := pt.Elem().(*types.Named); isN && nt.Obj().Pkg() != nil && strings.HasSuffix(nt.Obj().Pkg().Path(), "/pkg/remux") {
+				remuxFields[f] = true
+			}
+		}
+	}
+	hasIn := p.MethodObj("pkg/logic", "Group", "hasInSession")
+	isAdmitted := func(b *ssa.BasicBlock, k int) bool {
+		iff, ok := b.Instrs[len(b.Instrs)-1].(*ssa.If)
+		if !ok {
+			return false
+		}
+		c, pol := model.StripNot(iff.Cond, k == 0)
+		call, isCall := c.(*ssa.Call)
+		if !isCall || !model.SameFunc(model.CalleeObj(call.Common()), hasIn) {
+			return false
+		}
+		return !pol // the edge on which hasInSession() is false
+	}
+	n := 0
+	for _, fn := range lalFuncsIn(p, "pkg/logic") {
+		if fn.Parent() != nil || recvName(fn) != "Group" {
+			continue
+		}
+		// admitting methods: hasInSession() is tested in the function's own inlined view
+		tests := model.CountDeep(fn, 2, func(d model.DeepInstr) bool {
+			ci, ok := d.In.(ssa.CallInstruction)
+			return ok && model.SameFunc(model.CalleeObj(ci.Common()), hasIn)
+		})
+		if tests == 0 || fn.Object() == nil || !fn.Object().Exported() {
+			continue
+		}
+		isStore := func(d model.DeepInstr) bool {
+			s, ok := d.In.(*ssa.Store)
+			return ok && remuxFields[model.FieldOf(s.Addr)] && !model.IsNilConst(s.Val)
+		}
+		if model.CountDeep(fn, 2, isStore) == 0 {
+			continue
+		}
+		n++
+		early := model.DeepPathQuery{Root: fn, Depth: 2, StopEdge: isAdmitted, Target: isStore}.Find()
+		pos := p.Pos(fn.Pos())
+		if early != nil {
+			pos = p.InstrPos(early.In)
+		}
+		r.Check(early == nil, "C03.R11", fkey(fn, "admission", "pipeline-after-check"), pos, "remuxers created only for an admitted input", "a remuxer / filter of the group is replaced before (or regardless of) the 'stream already has an input' test: an input that is then refused has already overwritten what the accepted input was using - its frames are dropped or garbled for the subscribers")
+	}
+	if n < 2 {
+		r.Bad("C03.R11", "floor", "", fmt.Sprintf("only %d admitting Group methods that set up remuxers found", n))
+	}
+}
+
+// c07r12: the reorder list stays sorted by CompareSeq and free of duplicates.
+func c07r12(p *model.Prog, r *report.Result, rule string) {
+	r.Rule(rule, "in rtprtcp.RtpPacketList.Insert (helpers inlined) the new item is linked only (a) where a test of CompareSeq(new, neighbour) excludes the outcome 0 (strictly before / strictly after that neighbour: == -1, == 1, < 0, > 0), or (b) where the list is empty or was walked to its end (a .Next that is nil): a packet equal to a neighbour is never linked a second time, and no raw comparison of the 16-bit sequence numbers (wrong across the wrap) decides a position")
+	fn := p.Method("pkg/rtprtcp", "RtpPacketList", "Insert")
+	nextF := p.Field("pkg/rtprtcp", "RtpPacketListItem", "Next")
+	cmp := p.FuncObj("pkg/rtprtcp", "CompareSeq")
+	n := 0
+	model.EachInstrDeep(fn, 2, func(d model.DeepInstr) {
+		st, ok := d.In.(*ssa.Store)
+		if !ok || model.FieldOf(st.Addr) != nextF {
+			return
+		}
+		fresh := func(v ssa.Value) bool {
+			_, isAlloc := d.Resolve(v).(*ssa.Alloc)
+			return isAlloc
+		}
+		if fa, isFA := st.Addr.(*ssa.FieldAddr); isFA && fresh(fa.X) {
+			return
+		}
+		if !fresh(st.Val) {
+			return
+		}
+		n++
+		strict := d.GuardedBy(func(c ssa.Value, pol bool) bool {
+			x, k, op, right, ok := constCmp(c)
+			if !ok {
+				return false
+			}
+			call, isCall := model.Unwrap(x).(*ssa.Call)
+			if !isCall || !model.SameFunc(model.CalleeObj(call.Common()), cmp) {
+				return false
+			}
+			some := false
+			for _, v := range []int64{-1, 0, 1} {
+				if cmpAt(op, v, k, right) == pol {
+					if v == 0 {
+						return false
+					}
+					some = true
+				}
+			}
+			return some
+		})
+		atEnd := d.GuardedBy(func(c ssa.Value, pol bool) bool {
+			x, nonNilOnTrue, isNil := nilTest(c)
+			if !isNil || nonNilOnTrue == pol {
+				return false // the edge on which x is nil is wanted
+			}
+			return model.LoadedField(x) == nextF
+		})
+		r.Check(strict || atEnd, rule, fkey(fn, "position", "decided-by-CompareSeq"), p.InstrPos(st), "linked strictly before/after a neighbour, or at the end", "the new packet is linked at a place that no CompareSeq test with the outcome 'equal' excluded decides (a raw comparison of sequence numbers, or a <= / >= test that lets an equal number through): around the 65535 -> 0 wrap a late packet is appended after newer ones, or a duplicate of the last buffered packet is stored twice - the unpacker stalls until the list is full and then delivers frames out of order or twice")
+	})
+	if n < 1 {
+		r.Bad(rule, "floor", "", "no link of the new item found in RtpPacketList.Insert")
+	}
+}
